@@ -14,7 +14,7 @@ FewAssignments == {[c \in C4 |-> g] : g \in Grid} \cup
 \* thorough: every assignment over the four core countries x {1/2, 3/2} for the two map specials
 AllAssignments == {[c \in C4 |-> IF c \in Core THEN f[c] ELSE g[c]] : f \in [Core -> Grid], g \in [{"MUS", "SWT"} -> {<<1, 2>>, <<3, 2>>}]} \cup FewAssignments
 CountryTab == [r \in RunTypes |-> CASE r \in {"r_arg_base", "r_bad", "r_arg_kf", "r_arg_herd", "r_arg_own48"} -> "ARG" [] r = "r_usa_nw" -> "USA"
-                                     [] r = "r_dji_res" -> "DJI" [] r = "r_wor" -> "WOR" [] r = "r_alb_kf" -> "ALB"]
+                                     [] r \in {"r_dji_res", "r_dji_capoff"} -> "DJI" [] r = "r_wor" -> "WOR" [] r = "r_alb_kf" -> "ALB"]
 OptTab == [r \in RunTypes |-> IF r \in {"r_alb_kf", "r_arg_kf"} THEN "known_to_fail_for_ALB" ELSE r]
 PosTab == [c \in {"ALB", "ARG", "DJI", "USA", "WOR"} |-> CASE c = "ALB" -> 1 [] c = "ARG" -> 5 [] c = "DJI" -> 40 [] c = "USA" -> 150 [] c = "WOR" -> 999]
 ASSUME AggregateSane
